@@ -149,6 +149,7 @@ def gen_imports(rng, fs, tier):
     # new evenly spaced coordinates, geometry to be rebuilt from them
     for _ in range(2):
         coords = {}
+        s = rng.choice(SCALES)        # one scale per case (Mesh(cell=...) uses min(cell)*1e-3 across all axes)
         for a in range(nd):
             if rng.random() < 0.7:
                 if fs["exact"]:
@@ -156,7 +157,6 @@ def gen_imports(rng, fs, tier):
                     x0 = F(rng.randint(-512, 512), 16)
                     vals = [x0 + j * c for j in range(fs["n"][a])]
                 else:
-                    s = rng.choice(SCALES)
                     c = round(rng.uniform(0.2, 9.0), 2) * s
                     x0 = rng.choice([0.0, round(rng.uniform(-300, 300), 1)]) * c
                     vals = [F(x0 + j * c) for j in range(fs["n"][a])]
@@ -208,12 +208,13 @@ def gen_raw(rng, exact):
     nvdim = rng.choice([1, 2, 3])
     dims = rng.sample(DIM_POOL, nd)
     coords = []
+    scale = rng.choice(SCALES)
     for k in n:
         if exact:
             c = F(rng.choice([1, 3, 5]), 2 ** rng.randint(0, 3))
             x0 = F(rng.randint(-64, 64), 4)
         else:
-            c = F(round(rng.uniform(0.2, 9.0), 2) * rng.choice(SCALES))
+            c = F(round(rng.uniform(0.2, 9.0), 2) * scale)
             x0 = F(float(rng.choice([0, rng.randint(-40, 40)]) * c))
         coords.append([S(F(float(x0 + j * c))) for j in range(k)])
     attrs = dict(nvdim=nvdim)
